@@ -34,6 +34,9 @@ type Spec struct {
 	// DropHashes > 0: the signature handed to Validate lacks its last DropHashes block hashes (a signature file
 	// cut at a message boundary reads back without error): the file worker fails; that must never look like "valid"
 	DropHashes int `json:"drop_hashes,omitempty"`
+	// LastBigKiB > 0: instead of Tree, a small file followed by one of that many KiB, which is the only damaged
+	// entry (Damages): the healer is still copying the last wounded file when the scan is over
+	LastBigKiB int `json:"last_big_kib,omitempty"`
 }
 
 func manyTree(n int) h.Tree {
@@ -80,6 +83,12 @@ func check(s Spec) h.Result {
 		tree = h.Tree{
 			{Path: "a-big", Kind: h.KFile, C: h.Content{{Src: 0, Len: s.BigMiB << 20}}},
 			{Path: "z-small", Kind: h.KFile, C: h.Content{{Src: 1, Len: 1000}}},
+		}
+	}
+	if s.LastBigKiB > 0 {
+		tree = h.Tree{
+			{Path: "a-small", Kind: h.KFile, C: h.Content{{Src: 1, Len: 1000}}},
+			{Path: "z-big", Kind: h.KFile, C: h.Content{{Src: 0, Len: s.LastBigKiB << 10}}},
 		}
 	}
 	ref, work := filepath.Join(d, "ref"), filepath.Join(d, "work")
@@ -137,6 +146,9 @@ func check(s Spec) h.Result {
 			}
 		}
 		cl = append(cl, h.DmgClasses(tree, s.Damages)...)
+		if s.LastBigKiB > 0 {
+			cl = append(cl, "tree:only-the-last-file-(>256KiB)-damaged")
+		}
 	}
 	// independent verdict on the directory, before validation runs
 	devs := h.Observe(work, tree, indexOf(c))
@@ -234,6 +246,20 @@ func check(s Spec) h.Result {
 	if s.Consumer == "failfast" && verr != nil && !deviates && !cancelled && s.DropHashes == 0 {
 		return h.Result{Fail: fmt.Sprintf("fail-fast validation of an identical directory, never cancelled, returned an error: %v", verr), Classes: cl}
 	}
+	if s.Consumer == "heal" && verr == nil {
+		// a nil from a validation that heals says "whatever was wrong has been put right" (C06); an
+		// interruption may turn that into an error, never into a nil over a directory that is still wrong
+		after := h.Observe(work, tree, indexOf(c))
+		_, aerr := os.Lstat(work)
+		cl = append(cl, "heal:returned-nil")
+		if cancelled {
+			cl = append(cl, "heal:returned-nil-though-cancelled")
+		}
+		if len(after) > 0 || aerr != nil {
+			return h.Result{Fail: fmt.Sprintf("validation with an archive healer returned nil but the directory still deviates from the signed build (%s); before: %s; cancelled=%v cancel_at=%d cancel_us=%d",
+				describe(after, aerr), describe(devs, lerr), cancelled, s.CancelAt, s.CancelUs), Classes: cl}
+		}
+	}
 	if verr != nil {
 		cl = append(cl, "outcome:error")
 	} else {
@@ -292,6 +318,19 @@ var prop = h.Prop[Spec]{
 		s.Procs = rapid.SampledFrom([]int{1, 2, 4, 16}).Draw(t, "gomaxprocs")
 		if rapid.IntRange(0, 7).Draw(t, "short-signature") == 0 {
 			s.DropHashes = rapid.IntRange(1, 3).Draw(t, "drop-hashes")
+		}
+		if rapid.IntRange(0, 11).Draw(t, "last-big") == 0 {
+			// only the last file is damaged and it takes the healer several copy steps; cancellation
+			// mostly lands in one of the first callbacks, among them the healer's progress reports
+			s.Tree, s.DropHashes = nil, 0
+			s.LastBigKiB = rapid.SampledFrom([]int{300, 1024, 3000, 8192}).Draw(t, "last-big-kib")
+			s.Damages = []h.Dmg{{Path: "z-big", Op: rapid.SampledFrom([]string{"delete", "flip", "truncate"}).Draw(t, "last-big-dmg"), Off: 5}}
+			if rapid.Bool().Draw(t, "last-big-heal") {
+				s.Consumer = "heal"
+			}
+			if rapid.Bool().Draw(t, "last-big-cancel-in-callback") {
+				s.CancelUs, s.CancelAt = 0, rapid.IntRange(1, 24).Draw(t, "last-big-cancel-at")
+			}
 		}
 		return s
 	},
